@@ -34,6 +34,19 @@ class _Reviewed(dict):
             return sigkeys.alias_match(_BOUND["crate"], nk, dict.keys(self), _BOUND["table"])
         return None
 
+    def moved(self, k, present):
+        """a reviewed entry of the same rule with the same site description (everything after the function segment) whose own
+        key no pending site answers to any more: the construct was moved into another function (extract / inline)"""
+        nk = norm_key(k)
+        parts = nk.split("|")
+        if len(parts) < 3:
+            return None
+        for e in dict.keys(self):
+            ep = e.split("|")
+            if len(ep) == len(parts) and ep[0] == parts[0] and ep[2:] == parts[2:] and ep[1] != parts[1] and e not in present:
+                return e
+        return None
+
     def __contains__(self, k):
         return self._resolve(k) is not None
 
@@ -116,3 +129,20 @@ _RAW = {
 }
 
 REVIEWED = _Reviewed(_RAW)
+
+
+def settle(r, pending):
+    """decide the unproven sites of a prover-style rule: exact / renamed reviewed entry, else an entry whose site moved here
+    (its own key is vacated), else a violation.  pending: [(key, message)]"""
+    present = {norm_key(k) for k, _m in pending}
+    used = set()
+    for key, msg in pending:
+        if key in REVIEWED:
+            r.review(key, REVIEWED[key])
+            continue
+        e = REVIEWED.moved(key, present | used)
+        if e is not None:
+            used.add(e)
+            r.review(key, dict.__getitem__(REVIEWED, e) + " [site moved here from %s]" % e.split("|")[1].split("::")[-1])
+        else:
+            r.violate(key, msg)
